@@ -355,6 +355,12 @@ func buildPool(r *rng.R) ([]HistOp, []*filegen.File, []string) {
 			op.Note = "aborted_invalid_utf8_panic"
 		case 2:
 			op.Fault = DiskFault{Kind: []string{"enoent", "eio", "empty", "torn", "flip"}[r.Intn(5)], Offset: r.Intn(200)}
+		case 6:
+			// the same source under ANOTHER project's font config (same path, same font ids,
+			// other metrics): nothing computed for one config may be reused for the other
+			op.Files = map[string]string{"font_config.json": string(f.Fonts.Variant(r).JSON())}
+			op.SharedSet = i
+			op.Note = "other_font_config_same_path"
 		case 4:
 			// ill-formed: 1-3 top-level statements written twice (duplicate text / movement
 			// labels: error paths that walk the parser's tables)
